@@ -346,10 +346,23 @@ def plugin(spec):
             "features required": ["circ", "area_um"],
             "description": "verification plug-in", "version": "0.1.0"}
     inst = pf.PlugInFeature("circ_per_area", info)
+
+    # a second plug-in whose recipe lists one configuration section in two
+    # separate entries
+    def compute2(mm):
+        return {"circ_px_rate": mm["circ"] * mm.config["imaging"][
+            "pixel size"] + mm.config["imaging"]["frame rate"]}
+    info2 = {"method": compute2, "feature names": ["circ_px_rate"],
+             "features required": ["circ"],
+             "config required": [["imaging", ["pixel size"]],
+                                 ["imaging", ["frame rate"]]],
+             "description": "verification plug-in 2", "version": "0.1.0"}
+    inst2 = pf.PlugInFeature("circ_px_rate", info2)
     try:
         yield
     finally:
         pf.remove_plugin_feature(inst)
+        pf.remove_plugin_feature(inst2)
 
 
 def base_data(feats):
@@ -610,6 +623,16 @@ def cases(tier, seed):
             plugin=True)))
         out.append(("area_um chain history %d" % i, dict(
             feats=pfeats, cfg=pcfg, target="area_um", edits=h,
+            plugin=True)))
+    p2cfg = {"imaging": {"pixel size": "num", "frame rate": "num"},
+             "setup": {}, "calculation": {}}
+    e_fr = ["set", "imaging", "frame rate", "num"]
+    for i, h in enumerate([[e_set], [e_fr], [["del", "imaging",
+                                              "pixel size"]],
+                           [["del", "imaging", "frame rate"]],
+                           [e_set, ["readf", "circ_px_rate"], e_fr]]):
+        out.append(("plugin with a two-entry recipe, history %d" % i, dict(
+            feats=["circ"], cfg=p2cfg, target="circ_px_rate", edits=h,
             plugin=True)))
     # temporary features that feed a computed feature are set / replaced
     mcfg = {"imaging": {}, "setup": {}, "calculation": {}}
